@@ -15,7 +15,7 @@ use std::iter::FromIterator;
 use std::marker::PhantomData;
 use std::sync::atomic::{AtomicUsize, Ordering};
 use std::sync::mpsc::{channel, Receiver, Sender};
-use std::sync::Arc;
+use std::sync::{Arc, OnceLock};
 
 use chrono::{DateTime, Local};
 use console::Term;
@@ -1155,6 +1155,12 @@ fn group_by_contents(
     groups
 }
 
+/// The moment the first scan of this process began, recorded by [`group_files`] before it reads anything.
+/// [`write_report`] stamps the report with it rather than with the time of writing: the dedupe commands treat
+/// a file as unchanged if it was not modified after the report's timestamp, so a file modified while
+/// grouping was still in progress must be newer than that timestamp.
+static SCAN_START: OnceLock<DateTime<Local>> = OnceLock::new();
+
 /// Groups identical files together by 128-bit hash of their contents.
 /// Depending on filtering settings, can find unique, duplicate, over- or under-replicated files.
 ///
@@ -1221,6 +1227,7 @@ fn group_by_contents(
 /// write_report(&config, &log, &groups).unwrap();
 /// ```
 pub fn group_files(config: &GroupConfig, log: &dyn Log) -> Result<Vec<FileGroup<FileInfo>>, Error> {
+    SCAN_START.get_or_init(Local::now);
     let spinner = log.progress_bar("Initializing", ProgressBarLength::Unknown);
     let ctx = GroupCtx::new(config, log)?;
 
@@ -1273,7 +1280,10 @@ pub fn write_report(
     log: &dyn Log,
     groups: &[FileGroup<FileInfo>],
 ) -> io::Result<()> {
-    let now = Local::now();
+    let now = match SCAN_START.get() {
+        Some(start) => *start,
+        None => Local::now(),
+    };
 
     let total_count = file_count(groups.iter());
     let total_size = total_size(groups.iter());
